@@ -2,7 +2,6 @@ package ref
 
 import (
 	"fmt"
-	"regexp"
 	"sort"
 	"strconv"
 	"strings"
@@ -550,20 +549,22 @@ type XRefReport struct {
 	Resolved map[string]int
 }
 
-var rePathParam = regexp.MustCompile(`^\{([^{}/]*)\}$`)
-
-// PathParams extracts the whole-segment {parameters} of a path, in order.
-func PathParams(path string) []string {
-	if i := strings.IndexAny(path, "?#"); i >= 0 {
-		path = path[:i]
-	}
-	var out []string
+// PathParams extracts the {parameters} of a path: the segments that are wholly "{name}". A path in which braces
+// occur elsewhere (inside a name, in the middle of a segment) has no agreed reading; ambiguous is then true and the
+// caller does not judge it.
+func PathParams(path string) (params []string, ambiguous bool) {
 	for _, seg := range strings.Split(path, "/") {
-		if m := rePathParam.FindStringSubmatch(seg); m != nil {
-			out = append(out, m[1])
+		if len(seg) >= 2 && seg[0] == '{' && seg[len(seg)-1] == '}' {
+			inner := seg[1 : len(seg)-1]
+			if strings.ContainsAny(inner, "{}") {
+				ambiguous = true
+			}
+			params = append(params, inner)
+		} else if strings.ContainsAny(seg, "{}") {
+			ambiguous = true
 		}
 	}
-	return out
+	return params, ambiguous
 }
 
 func CrossRef(root interface{}) XRefReport {
@@ -725,7 +726,7 @@ func CrossRef(root interface{}) XRefReport {
 			}
 			checkSchema(w, io)
 			if proto == "http" {
-				params := PathParams(path)
+				params, ambiguous := PathParams(path)
 				sort.Strings(params)
 				var have []string
 				pv := io.Obj("pathVariables")
@@ -742,7 +743,9 @@ func CrossRef(root interface{}) XRefReport {
 					}
 				}
 				sort.Strings(have)
-				if strings.Join(params, "\x00") != strings.Join(have, "\x00") || (len(params) == 0) != (pv == nil) {
+				if ambiguous {
+					rep.Resolved["pathVariables_ambiguous_path_skipped"]++
+				} else if strings.Join(params, "\x00") != strings.Join(have, "\x00") || (len(params) == 0) != (pv == nil) {
 					errf("path-variables", "%s: path %q has parameters %v but pathVariables lists %v (present=%v)", w, path, params, have, pv != nil)
 				} else {
 					rep.Resolved["pathVariables"] += len(params)
